@@ -14,7 +14,8 @@ def gen_sens(ctx, n):
         nn_ = r.choice([2, 3, 4, 5])
         out.append({'seed': r.randint(0, 10**6), 'model': r.choice(SENS_MODELS), 'clipping': clip, 'red': r.choice(['mean', 'sum']),
                     'C': r.choice([0.01, 0.3, 1.0, 7.0]), 'n': nn_, 'drop': r.randrange(nn_), 'nm': 1.0, 'B': nn_, 'split': r.choice([1, 1, 2, 3]),
-                    'wscale': r.choice([0.1, 1.0, 3.0]), 'xscale': r.choice([1e-4, 1e-2, 1.0, 10.0, 1e3]), 'tscale': r.choice([1e-3, 1.0, 1e3])})
+                    'wscale': r.choice([0.1, 1.0, 3.0]), 'xscale': r.choice([1e-4, 1e-2, 1.0, 10.0, 1e3]), 'tscale': r.choice([1e-3, 1.0, 1e3]),
+                    'lcol': r.random() < 0.3})      # the criterion returns its per-sample losses as a column [B, 1] (MSELoss / BCE on one output unit)
     return out
 
 
@@ -26,7 +27,7 @@ def gen_step(ctx, n):
         nn_ = r.choice([1, 2, 3, 4])
         out.append({'seed': r.randint(0, 10**6), 'model': r.choice(MODELS), 'clipping': clip, 'red': r.choice(['mean', 'sum']),
                     'C': r.choice([0.05, 1.0, 4.0, 1e6]), 'n': nn_, 'nm': 1.0 if clip == 'adaptive' else r.choice([0.0, 0.7]), 'B': r.choice([nn_, 5]),
-                    'split': r.choice([1, 1, 2, 3]), 'accum': r.choice([1, 1, 1, 2, 3]), 'zg2': r.random() < 0.3, 'wscale': r.choice([0.3, 1.0]), 'xscale': r.choice([1e-2, 1.0, 10.0]), 'tscale': r.choice([1e-2, 1.0, 10.0])})
+                    'split': r.choice([1, 1, 2, 3]), 'accum': r.choice([1, 1, 1, 2, 3]), 'zg2': r.random() < 0.3, 'wscale': r.choice([0.3, 1.0]), 'xscale': r.choice([1e-2, 1.0, 10.0]), 'tscale': r.choice([1e-2, 1.0, 10.0]), 'lcol': r.random() < 0.3})
     return out
 
 
